@@ -1526,7 +1526,14 @@ impl HasChildren for XmlDocument {
                     .document_element()
                     .map(|v| v.borrow().id() != value.id())
                     .unwrap_or(false);
-                if other_element {
+                // the document type declaration precedes the document element
+                let before_doctype = match (id, self.document_declaration()) {
+                    (Some(id), Some(v)) => {
+                        self.child_index(id) <= self.child_index(v.borrow().id())
+                    }
+                    _ => false,
+                };
+                if other_element || before_doctype {
                     Err(error::Error::InvalidType)
                 } else {
                     add_or_insert(self, value.clone(), id);
